@@ -22,10 +22,13 @@ def descriptors(tier):
                     if tier == "quick" and k % 2:
                         continue
                     la, lb = 3 + k % 3, 3 + (k // 3) % 3
+                    # attributes taken from different digits of k, so that the quick tier (every second k) still meets both
+                    # lateral sizes, both pbc patterns and both noise levels
+                    pbc_z = bool((k // 4) % 2)
                     # superlattice (no vacuum along a periodic stacking direction) where the layer sequence closes
-                    sup = bool(k % 2) and f in ("fcc100", "bcc100") and (la + lb) % 2 == 0 and (k // 2) % 2 == 0
-                    out.append({"A": A, "B": B, "facet": f, "la": la, "lb": lb, "size": 4 + k % 2, "pbc_z": bool(k % 2),
-                                "superlattice": sup, "noise": 0.03 * ((k // 2) % 2), "i": k})
+                    sup = pbc_z and f in ("fcc100", "bcc100") and (la + lb) % 2 == 0 and (k // 8) % 2 == 0
+                    out.append({"A": A, "B": B, "facet": f, "la": la, "lb": lb, "size": 4 + (k // 2) % 2, "pbc_z": pbc_z,
+                                "superlattice": sup, "noise": 0.03 * ((k // 3) % 2), "i": k})
     # superlattices: periodic stacking direction without vacuum (short stack periods)
     for lat, f in ((FCC, "fcc100"), (BCC, "bcc100")):
         for A in lat:
@@ -37,6 +40,17 @@ def descriptors(tier):
                     continue
                 out.append({"A": A, "B": B, "facet": f, "la": 3, "lb": 3 + 2 * (k % 2), "size": 4, "pbc_z": True, "superlattice": True,
                             "noise": 0.03 * (k % 2), "i": k})
+    # corners of the family, in both tiers: the densest nets (smallest lattice constants) at the largest lateral size, and the
+    # widest nets at the smallest - where the numbers of candidate spans / neighbours inside max_cell_size are extreme
+    for lat, f in ((FCC, "fcc100"), (BCC, "bcc100"), (FCC, "fcc111")):
+        pairs = sorted((lat[A] + lat[B], A, B) for A in lat for B in lat if A < B and abs(lat[A] - lat[B]) / lat[A] < 0.05)
+        if not pairs:
+            continue
+        for (tag, (_, A, B), size) in (("dense", pairs[0], 5), ("wide", pairs[-1], 4)):
+            for pz in (False, True):
+                k += 1
+                out.append({"A": A, "B": B, "facet": f, "la": 3 + k % 2, "lb": 5 - k % 2, "size": size, "pbc_z": pz, "superlattice": False,
+                            "noise": 0.0, "corner": tag, "i": k})
     return out
 
 
